@@ -190,7 +190,7 @@ CHECKS = {
         "text": ("(a) Explicit-state search over call histories on live bodies: 4 bodies (a, b, c in another rotated frame, d = b shifted by < 2 mm) "
                  "x 24 operations (contact_forces, contact_forces(return_details=True), find_contact_surface(use_aabb_trees=True) on the 8 "
                  "ordered pairs with contact), breadth-first with canonical-state de-duplication (frame of every body + filled private "
-                 "attributes) to depth 3 (thorough 6) from 8 scenes (4 factory pairs x {origin, rotated frame 1e3 units away}); every "
+                 "attributes) to depth 3 (thorough 4) from 8 scenes (4 factory pairs x {origin, rotated frame 1e3 units away}); every "
                  "transition must equal the same call on fresh bodies (1e-6 relative) and afterwards every filled cache must equal its "
                  "recomputed value. (b) 36 factory body pairs x 4 contact placements x rotations of body 1 and of body 2 (general, not just identity): for each scene "
                  "the transition relations f12 = -f21, swap of the bodies swaps the wrenches, 5 common rigid motions rotate the forces, repeated "
